@@ -388,9 +388,7 @@ def reactServer (s : St) (m : Stun) : St × List Out :=
     | .error => ({ s with stunTx := rest }, .accepted :: done)
     | .response =>
       match m.mapped with
-      -- today's code returns early in the next two cases WITHOUT forgetting the (deleted) transaction: the model follows the
-      -- repaired behaviour (fixes/C15-stun-discovery-dangling-transaction.diff); the harness keeps these two inputs out of the
-      -- correspondence and reproduces the defect separately
+      -- (before repo commit 314ddf9 the next two cases returned early WITHOUT forgetting the deleted transaction)
       | none => ({ s with stunTx := rest }, .accepted :: .warnNoReflexive :: done)
       | some a =>
         if s.localSrflx.contains a then ({ s with stunTx := rest }, .accepted :: done)
